@@ -1,12 +1,20 @@
 #!/usr/bin/env python3
 """C18 — serialization round-trips preserve behaviour.
 
-  1. proofs: Properties_C18.v (codec round trip, sequence/class round trip, mismatch diagnostics);
-  2. tie (translator, every run): tools/translate_serial.py re-reads the read/write/serialize bodies and
+  1. proofs: Properties_C18.v (codec round trip, sequence/class round trip, mismatch diagnostics; nested descriptions:
+     round trip and member coverage by structural induction, Data<T> layout; text/binary vector stream alignment);
+  2. translator self-test: synthetic classes under harness/c18_selftest/*.cpp (never linked: source-level translation,
+     coqc of the generated obligations, clang AST dump): read()/write() that delegate to one helper are translated by
+     inlining the helper; a member lost in such a refactoring is the only thing reported;
+  3. tie (translator, every run): tools/translate_serial.py re-reads the read/write/serialize bodies and
      the data members of every serializable class from the CURRENT tree and emits one small Coq file
-     per class (coq/gen/c18/C18_<X>.v) with the obligations rw_X / cover_X / stale_X; each file is
-     compiled on its own, so one broken class does not hide the others;
-  3. monitor (always) and search (when an obligation of a class fails): the C++ round-trip harness
+     per class (coq/gen/c18/C18_<X>.v) with the obligations rw_X / cover_X / stale_X / nrw_X; each file is
+     compiled on its own, so one broken class does not hide the others; coq/gen/C18NestedAll.v then plugs the nested
+     descriptions together (member classes first) and instantiates the nested round-trip theorem per class, and
+     coq/gen/C18DataTie.v ties the regenerated description of Data/LabeledData/Shape to the modelled layout;
+  4. tie of the vector-stream model (C18Text.v, extracted, ocaml/c18_driver.ml): the words / bytes Boost's text / binary
+     archive contains for consecutive vectors (harness class VectorStream) equal the model's stream;
+  5. monitor (always) and search (when an obligation of a class fails): the C++ round-trip harness
      harness/c18_*.cpp, text and binary archives, fresh instance differing in all streamed state.
 """
 import os, sys, re, json, shutil
@@ -49,6 +57,10 @@ HARNESS_TO_CLASSES.update({
     "CMAIndividual": _CMAIND,
     "WeightedUnlabeledData": ["BaseWeightedDataset", "Data", "SharedContainer", "Shape"],
     "WeightedLabeledData": ["BaseWeightedDataset", "LabeledData", "Data", "SharedContainer", "Shape"],
+    "HardClusteringModel": ["ClusteringModel", "Centroids", "Data", "SharedContainer", "Shape"],
+    "ValidatedSingleObjectiveResultSet": ["ValidatedSingleObjectiveResultSet", "ResultSet"],
+    "Conv2DModel": ["Conv2DModel"], "PoolingLayer": ["PoolingLayer", "Shape"], "ResizeLayer": ["ResizeLayer", "Shape"],
+    "CMACMap": ["CMACMap", "Shape"], "VectorStream": ["vector"],
 })
 
 
@@ -314,6 +326,59 @@ def run_selftest(ck, tmpd):
     return rep, ast, results
 
 
+def stream_tie(ck, hres, tmpd):
+    """VectorStream cases: the archive content the C++ harness reports (note=...) must be the stream the extracted model
+    produces for the same vectors -- size item then elements, an empty vector = the size item alone -- up to Boost's
+    object-id records (one id per saved object when object tracking is on for the type in this program), which are not
+    part of the model; and the model's loader must accept its own stream into stale targets."""
+    sc = [h for h in hres if h["cls"] == "VectorStream"]
+    if not sc: return
+    try:
+        exe = extract_model(PID, "C18Extract.v", "c18_driver.ml")
+    except Exception as ex:
+        ck.oblige("extracted vector-stream model builds", False, repr(ex)[-800:]); return
+    mf = os.path.join(tmpd, "stream_model.txt")
+    open(mf, "w").write("".join("S %s %s %s\n" % (h["fmt"], h["seed"], h["var"]) for h in sc))
+    rc, out, err = sh([exe, mf], timeout=300)
+    model = {}
+    for l in out.split("\n"):
+        t = l.split()
+        if len(t) >= 8 and t[0] == "S":
+            model[(t[1], t[2], t[3])] = dict(x.split("=", 1) for x in t[4:])
+    nbad = 0; ncmp = 0; tracked = set(); sens = 0
+    for h in sc:
+        m = model.get((h["fmt"], h["seed"], h["var"]))
+        nm = re.search(r"note=(\S+)", h["rest"])
+        if h["status"] != "OK" or m is None or nm is None:
+            continue            # a failing round trip is reported by the monitor below
+        ncmp += 1
+        groups = m["stream"].split("|")
+        actual = nm.group(1)
+        if h["fmt"] == "text":
+            plain = ",".join(groups)
+            withid = ",".join("%d,%s" % (i, g) for i, g in enumerate(groups))
+        else:
+            plain = "".join(groups)
+            withid = "".join("%02x000000%s" % (i, g) for i, g in enumerate(groups))
+        ok = actual in (plain, withid) and m.get("loaded") == "1" and m.get("lex") in ("1", "-")
+        if actual == withid and actual != plain: tracked.add(h["fmt"])
+        if m.get("early") == "0": sens += 1
+        if not ok:
+            nbad += 1
+            if nbad == 1:
+                case = "VectorStream %s %s %s" % (h["fmt"], h["seed"], h["var"])
+                cf = ck.write_replay("case_VectorStream_stream.txt", case + "\n")
+                ck.violation("serial:VectorStream:stream layout", {"case_file": cf, "case": case, "implementation_stream": actual,
+                              "model_stream": plain, "model_stream_with_object_ids": withid, "model": m,
+                              "expected": "archive content = size item then elements per vector (empty vector: the size item alone)",
+                              "replay_cmd": "python3 tools/c18.py --replay %s" % cf},
+                             "archive stream of consecutive vectors differs from the model: %s -> implementation %s, model %s (loaded=%s lex=%s)" % (
+                                 case, actual[:200], plain[:200], m.get("loaded"), m.get("lex")))
+    ck.oblige("vector-stream model (C18Text.v, extracted) = archive content of the C++ harness on %d VectorStream cases (text words and binary bytes)" % ncmp,
+              ncmp > 0 and nbad == 0, "%d differ" % nbad)
+    ck.notes["stream_tie"] = {"cases": ncmp, "object_ids_present_in": sorted(tracked), "cases_with_empty_vector_into_nonempty_target": sens}
+
+
 def read_sources():
     p = os.path.join(ROOT, "harness", "c18_sources.txt")
     if not os.path.exists(p): return []
@@ -348,7 +413,8 @@ def classify(line):
 def main():
     ck = Check(PID)
     ck.trusted = DEFAULT_TRUSTED + [
-        "tools/translate_serial.py: source-level reading of read/write/serialize bodies and of class-body declarations (comments/strings blanked, brace matching); what it ignores is listed in each generated file",
+        "tools/translate_serial.py: source-level reading of read/write/serialize bodies and of class-body declarations (comments/strings blanked, brace matching; member-function helpers that are handed the archive are inlined, anything else that is handed the archive is a failing obligation); what it ignores is listed in each generated file",
+        "ocaml/c18_driver.ml: element codecs of the vector-stream model (C printf %.17e for text, IEEE bytes for binary); Boost's archive prefix and object-id records are stripped / accounted for in tools/c18.py (stream_tie)",
         "the hand-kept TRANSIENT / ACCESSORS / EXCLUDED tables in tools/translate_serial.py",
         "modelled not verified: Boost.Serialization (record structure, versions, pointer tracking), remora storage serialization"]
     ck.assumptions = ["behaviour of an object is a function of its non-transient data members and of the structure the user supplies on construction (kernel/layer pointers, objective function, rng)",
@@ -429,6 +495,9 @@ def main():
         hres = [classify(l) for l in outs]
         hres = [h for h in hres if h]
         ck.oblige("harness produced one result per case", len(hres) == len(cases), "%d results for %d cases" % (len(hres), len(cases)))
+
+    # ---- tie of the vector-stream model (C18Text.v, extracted) to the real archives: same words / bytes, every run
+    stream_tie(ck, hres, tmpd)
 
     # ---- decide
     bad = [h for h in hres if h["status"] not in ("OK",)]
